@@ -237,6 +237,8 @@ def generate(rng, tier, scale=1):
                 cases.append({"entry": "trace", "size": size, "hop": hop, "pad": None, "n": max(0, n + dn),
                               "ending": rng.choice(["stop", "fail"]), "route": rng.choice(["func", "stream"]),
                               "exc": "DeviceError"})
+        cases.append({"entry": "zero_pad", "left": 0, "right": 0, "zero": {"f": "0.0"}, "xs": [1, 2, 3], "defaults": "all"})
+        cases.append({"entry": "zero_pad", "left": 2, "right": 3, "zero": {"f": "0.0"}, "xs": [1, "a"], "defaults": "zero"})
         for l, r, n in [(0, 0, 0), (5000, 0, 3), (0, 5000, 3), (4096, 4097, 1000)]:
             cases.append({"entry": "zero_pad", "left": l, "right": r, "zero": 0, "n": n,
                           "ending": rng.choice(["stop", "fail"]), "observe": True, "ptype": "int"})
@@ -299,7 +301,8 @@ def _random_case(rng):
                 "kind": rng.choice(["control", "cell", "cellstream"])}
     if kind == "route":
         route = rng.choice(["gain", "chg_limit", "chg_append", "chg_limit", "chg_append", "thub", "tuple", "deque",
-                            "genfunc", "substream", "chgstream", "thub1", "positional"])
+                            "genfunc", "substream", "chgstream", "thub1", "positional", "reentrant", "reentrant",
+                            "stream_hopnone", "defaultpad", "stream_defaultpad"])
         c = {"entry": "blocks", "size": size, "hop": hop, "pad": pad, "route": route}
         if route == "gain":
             c["xs"] = [rng.randint(-9, 9) for _ in range(n)]
@@ -307,6 +310,10 @@ def _random_case(rng):
             c["pad"] = rng.choice([None, 0, "pad"])
         else:
             c["xs"] = _items(rng, n, flavour)
+        if route == "stream_hopnone":
+            c["hop"] = size
+        if route in ("defaultpad", "stream_defaultpad"):
+            c["pad"] = {"f": "0.0"}       # the documented default padval=0.
         if route in ("chg_limit", "chg_append"):
             c["take"] = rng.randint(0, nfull(size, hop, n))
             if route == "chg_append":
@@ -337,7 +344,7 @@ def _random_case(rng):
         subs.append({"entry": "blocks", "size": s2, "hop": h2, "pad": pad,
                      "xs": shared if share else _items(rng, n2, flavour), "share": share,
                      "route": rng.choice(["func", "stream", "iter"]),
-                     "ptype": rng.choice(["int", "int", "intsub"])})
+                     "ptype": rng.choice(["int", "int", "intsub", "hopfloat"])})
     return {"entry": "conc", "subs": subs, "order": rng.choice(["rr", "rr", "seq", "nest"])}
 
 
@@ -348,13 +355,18 @@ def valid(c):
     if e == "zero_pad":
         if c.get("ptype") == "bool" and (c["left"] > 1 or c["right"] > 1):
             return False
+        if c.get("defaults") and (c["zero"] != {"f": "0.0"} or
+                                  (c["defaults"] == "all" and (c["left"] or c["right"]))):
+            return False
         return c["left"] >= 0 and c["right"] >= 0
     if c["size"] < 1 or c["hop"] < 1:
         return False
     n = case_len(c)
     if e == "blocks":
         r = c.get("route", "func")
-        if r == "hopnone" and c["hop"] != c["size"]:
+        if r in ("hopnone", "stream_hopnone") and c["hop"] != c["size"]:
+            return False
+        if r in ("defaultpad", "stream_defaultpad") and c["pad"] != {"f": "0.0"}:
             return False
         if c.get("ptype") == "bool" and (c["size"] != 1 or c["hop"] != 1):
             return False
@@ -464,6 +476,13 @@ def _run_gen(gen, reg, out, bound=None):
     return None
 
 
+def _is_stream(res, obs):
+    from audiolazy import Stream
+    if not isinstance(res, Stream):
+        obs["not_a_stream"] = type(res).__name__
+    return res
+
+
 def _impl_blocks(c):
     from audiolazy import blocks, Stream, thub
     SubStream, ChangeableStream, GainStream = _classes()
@@ -484,13 +503,38 @@ def _impl_blocks(c):
     elif route == "positional":
         err = _run_gen(blocks(xs, size, hop, pad), reg, out)
     elif route == "stream":
-        err = _run_gen(Stream(xs).blocks(**kw), reg, out)
+        err = _run_gen(_is_stream(Stream(xs).blocks(**kw), obs), reg, out)
     elif route == "substream":
-        err = _run_gen(SubStream(xs).blocks(**kw), reg, out)
+        err = _run_gen(_is_stream(SubStream(xs).blocks(**kw), obs), reg, out)
     elif route == "chgstream":
         err = _run_gen(ChangeableStream(xs).blocks(**kw), reg, out)
     elif route == "hopnone":
         err = _run_gen(blocks(xs, size=size, padval=pad), reg, out)
+    elif route == "stream_hopnone":
+        err = _run_gen(_is_stream(Stream(xs).blocks(size=size, padval=pad), obs), reg, out)
+    elif route == "defaultpad":
+        err = _run_gen(blocks(xs, size=size, hop=hop), reg, out)
+    elif route == "stream_defaultpad":
+        err = _run_gen(_is_stream(Stream(xs).blocks(size=size, hop=hop), obs), reg, out)
+    elif route == "reentrant":
+        # every pull of the outer generator's source runs a complete inner blocks() call with the same
+        # parameters (and one with its own) on other data: scratch state shared between calls would show
+        inner_out = []
+
+        def inner_run(i):
+            inner = [("in", i, q) for q in range(c["size"] + 1)]
+            got = [[(y[0], 0, y[2]) if type(y) is tuple else ("pad",) for y in b] for b in blocks(inner, **kw)]
+            list(blocks(inner, size=c["size"] + 1, hop=1, padval=None))
+            return got
+
+        def src():
+            for i, x in enumerate(xs):
+                inner_out.append(inner_run(i))
+                yield x
+        err = _run_gen(blocks(src(), **kw), reg, out)
+        alone = inner_run(0)          # the same inner call with nothing else alive
+        if alone[:1] != [[("in", 0, q) for q in range(c["size"])]] or any(g != alone for g in inner_out):
+            obs["inner_wrong"] = True
     elif route == "iter":
         err = _run_gen(blocks(iter(xs), size, hop, pad), reg, out)
     elif route == "tuple":
@@ -652,6 +696,10 @@ def _impl_zero_pad(c):
     zero = untag(c["zero"], reg)
     pt = c.get("ptype", "int")
     left, right = _param(c["left"], pt, "left"), _param(c["right"], pt, "right")
+    if c.get("defaults"):
+        # documented defaults: left=0, right=0, zero=0. (the case carries exactly these values)
+        return {"out": tagl(zero_pad(iter(xs)), reg) if c["defaults"] == "all" else
+                tagl(zero_pad(iter(xs), left, right), reg)}
     if not c.get("observe"):
         return {"out": tagl(zero_pad(iter(xs), left=left, right=right, zero=zero), reg)}
     exc = DeviceError("source failed")
@@ -705,44 +753,63 @@ def _impl_conc(c):
         gens.append(mk)
         outs.append([])
     order = c.get("order", "rr")
-    err = None
-    try:
-        if order == "seq":
-            for mk, out in zip(gens, outs):
-                for b in mk():
-                    out.append(tagl(b, reg))
-        elif order == "rr":
-            live = [(mk(), out) for mk, out in zip(gens, outs)]
-            while live:
-                nxt = []
-                for g, out in live:
-                    try:
-                        out.append(tagl(next(g), reg))
-                        nxt.append((g, out))
-                    except StopIteration:
-                        pass
-                live = nxt
-        else:   # nest: between two blocks of the first generator the others run completely (fresh each time)
-            first = True
+    errs = [None] * len(gens)
+
+    def drain(i, out):
+        got = []
+        try:
+            for b in gens[i]():
+                got.append(tagl(b, reg))
+        except Exception as e:
+            errs[i] = err_kind(e)
+        if out is not None:
+            out.extend(got)
+        return got
+
+    if order == "seq":
+        for i, out in enumerate(outs):
+            drain(i, out)
+    elif order == "rr":
+        live = []
+        for i, (mk, out) in enumerate(zip(gens, outs)):
+            try:
+                live.append((i, mk(), out))
+            except Exception as e:
+                errs[i] = err_kind(e)
+        while live:
+            nxt = []
+            for i, g, out in live:
+                try:
+                    out.append(tagl(next(g), reg))
+                    nxt.append((i, g, out))
+                except StopIteration:
+                    pass
+                except Exception as e:
+                    errs[i] = err_kind(e)
+            live = nxt
+    else:   # nest: between two blocks of the first generator the others run completely (fresh each time)
+        first = True
+        try:
             for b in gens[0]():
                 outs[0].append(tagl(b, reg))
-                for mk, out in zip(gens[1:], outs[1:]):
-                    got = [tagl(x, reg) for x in mk()]
-                    if first:
-                        out.extend(got)
-                    elif got != out:
-                        out.append({"changed-on-rerun": got})
+                for i in range(1, len(gens)):
+                    got = drain(i, outs[i] if first else None)
+                    if not first and got != outs[i]:
+                        outs[i].append({"changed-on-rerun": got})
                 first = False
-            if first:
-                for mk, out in zip(gens[1:], outs[1:]):
-                    out.extend(tagl(x, reg) for x in mk())
-    except Exception as e:
-        err = err_kind(e)
-    obs = {"subs": [{"blocks": o} for o in outs],
-           "arg_ok": all(len(a) == len(p) and all(x is y for x, y in zip(a, p)) for a, p in args)}
-    if err:
-        obs["err"] = err
-    return obs
+        except Exception as e:
+            errs[0] = err_kind(e)
+        if first:
+            for i in range(1, len(gens)):
+                drain(i, outs[i])
+    subs = []
+    for o, e in zip(outs, errs):
+        d = {"blocks": o}
+        if e:
+            d["err"] = e
+        subs.append(d)
+    return {"subs": subs,
+            "arg_ok": all(len(a) == len(p) and all(x is y for x, y in zip(a, p)) for a, p in args)}
 
 
 def impl(c):
@@ -816,6 +883,10 @@ def _cmp_blocks(c, io, drv, out, where=""):
         out.append(("spec", where + "second thub branch differs from spec: impl=%r spec=%r" % (io["blocks2"], drv["closed"])))
     if io.get("arg_ok") is False:
         out.append(("spec", where + "the input sequence object was changed by the call"))
+    if io.get("not_a_stream"):
+        out.append(("spec", where + "Stream.blocks returned a %s, not a Stream" % io["not_a_stream"]))
+    if io.get("inner_wrong"):
+        out.append(("spec", where + "an inner blocks() call made while the outer generator was pulling its source gave wrong blocks"))
 
 
 def compare(c, io, drv):
@@ -1037,6 +1108,8 @@ def _shrink1(c):
             yield dict(c, take=c["take"] - 1)
         if r not in ("func", "gain", "chg_limit", "chg_append", "thub"):
             yield dict(c, route="func")
+            if r == "stream_defaultpad":
+                yield dict(c, route="defaultpad")
         elif r == "thub":
             yield dict(c, route="thub1")
         elif r != "func":
@@ -1160,8 +1233,9 @@ def classify(c, io, drv):
             return "mut:edits-not-visible"
         return e + ":content"
     if e == "conc":
-        if "err" in io:
-            return "conc:" + io["err"]
+        errs = sorted({o["err"] for o in io.get("subs", []) if "err" in o})
+        if "err" in io or errs:
+            return "conc:" + io.get("err", ",".join(errs))
         return "conc:content"
     if "err" in io:
         return "zero_pad:" + io["err"]
